@@ -527,4 +527,246 @@ theorem emitted_congr (s s' : St) (hn : s.names = s'.names)
   intro e he
   exact h e ((sortBy_perm_self _ _).subset he)
 
+/-! ### flags that only go from true to false; the fixed point of the introspectable loop -/
+
+/-- `a` is `b` with some flags cleared -/
+def FLe (a b : List Bool) : Prop :=
+  a.length = b.length ∧ ∀ i, a.getD i false = true → b.getD i false = true
+
+theorem FLe.refl (a : List Bool) : FLe a a := ⟨rfl, fun _ h => h⟩
+
+theorem FLe.trans {a b c : List Bool} (h1 : FLe a b) (h2 : FLe b c) : FLe a c :=
+  ⟨h1.1.trans h2.1, fun i h => h2.2 i (h1.2 i h)⟩
+
+theorem FLe.antisymm {a b : List Bool} (h1 : FLe a b) (h2 : FLe b a) : a = b := by
+  apply List.ext_getElem h1.1
+  intro i hi1 hi2
+  have e1 : a.getD i false = a[i] := by simp [List.getD, List.getElem?_eq_getElem hi1]
+  have e2 : b.getD i false = b[i] := by simp [List.getD, List.getElem?_eq_getElem hi2]
+  have := h1.2 i
+  have := h2.2 i
+  rw [e1, e2] at *
+  cases ha : a[i] <;> cases hb : b[i] <;> simp_all
+
+theorem getD_set_false (a : List Bool) (i j : Nat) :
+    (a.set i false).getD j false = (if i = j then false else a.getD j false) := by
+  by_cases hij : i = j
+  · subst hij
+    by_cases hi : i < a.length <;> simp [List.getD, hi]
+  · simp [List.getD, hij]
+
+theorem fle_set_false (a : List Bool) (i : Nat) : FLe (a.set i false) a := by
+  refine ⟨by simp, fun j h => ?_⟩
+  rw [getD_set_false] at h
+  split at h
+  · cases h
+  · exact h
+
+theorem fle_set_set {a b : List Bool} (h : FLe a b) (i : Nat) : FLe (a.set i false) (b.set i false) := by
+  refine ⟨by simpa using h.1, fun j hj => ?_⟩
+  rw [getD_set_false] at hj ⊢
+  split
+  · rename_i e; simp [e] at hj
+  · rename_i e; simp only [e, if_false] at hj; exact h.2 j hj
+
+theorem cntI_cons (x : Bool) (l : List Bool) : cntI (x :: l) = (if x then 1 else 0) + cntI l := by
+  cases x <;> simp [cntI]
+  omega
+
+theorem fle_cons {x y : Bool} {a b : List Bool} (h : FLe (x :: a) (y :: b)) :
+    (x = true → y = true) ∧ FLe a b := by
+  refine ⟨fun hx => ?_, ?_, fun i hi => ?_⟩
+  · have := h.2 0; simpa [List.getD, hx] using this
+  · have := h.1; simpa using this
+  · have := h.2 (i + 1); simpa [List.getD] using this (by simpa [List.getD] using hi)
+
+theorem cntI_le_of_fle : ∀ {a b : List Bool}, FLe a b → cntI a ≤ cntI b
+  | [], [], _ => Nat.le_refl _
+  | [], _ :: _, h => by have := h.1; simp at this
+  | _ :: _, [], h => by have := h.1; simp at this
+  | x :: a, y :: b, h => by
+    obtain ⟨hxy, hab⟩ := fle_cons h
+    have := cntI_le_of_fle hab
+    rw [cntI_cons, cntI_cons]
+    cases x <;> cases y <;> simp_all
+    omega
+
+theorem eq_of_fle_of_cntI_eq : ∀ {a b : List Bool}, FLe a b → cntI a = cntI b → a = b
+  | [], [], _, _ => rfl
+  | [], _ :: _, h, _ => by have := h.1; simp at this
+  | _ :: _, [], h, _ => by have := h.1; simp at this
+  | x :: a, y :: b, h, hc => by
+    obtain ⟨hxy, hab⟩ := fle_cons h
+    have hle := cntI_le_of_fle hab
+    rw [cntI_cons, cntI_cons] at hc
+    cases x <;> cases y <;> simp_all
+    · exact eq_of_fle_of_cntI_eq hab hc
+    · omega
+    · exact eq_of_fle_of_cntI_eq hab (by omega)
+
+/-- a visit function that only clears flags and clears at least as much from a smaller state -/
+structure Deflating (f : List Bool → Nat → List Bool) : Prop where
+  le : ∀ a k, FLe (f a k) a
+  mono : ∀ a b k, FLe a b → FLe (f a k) (f b k)
+
+theorem foldl_fle {f : List Bool → Nat → List Bool} (hf : Deflating f) :
+    ∀ (l : List Nat) (a : List Bool), FLe (l.foldl f a) a
+  | [], a => FLe.refl a
+  | k :: l, a => (foldl_fle hf l (f a k)).trans (hf.le a k)
+
+theorem foldl_fmono {f : List Bool → Nat → List Bool} (hf : Deflating f) :
+    ∀ (l : List Nat) (a b : List Bool), FLe a b → FLe (l.foldl f a) (l.foldl f b)
+  | [], _, _, h => h
+  | k :: l, a, b, h => foldl_fmono hf l (f a k) (f b k) (hf.mono a b k h)
+
+/-- a walk of clearing visits that ends where it started did nothing at any visit -/
+theorem foldl_ffixed {f : List Bool → Nat → List Bool} (hf : Deflating f) :
+    ∀ (l : List Nat) (a : List Bool), l.foldl f a = a → ∀ k ∈ l, f a k = a
+  | [], _, _, _, hk => by cases hk
+  | k :: l, a, h, k', hk' => by
+    have h1 : FLe (l.foldl f (f a k)) (f a k) := foldl_fle hf l (f a k)
+    simp only [List.foldl_cons] at h
+    rw [h] at h1
+    have e : f a k = a := (hf.le a k).antisymm h1
+    rw [e] at h
+    rcases List.mem_cons.mp hk' with rfl | hm
+    · exact e
+    · exact foldl_ffixed hf l a h k' hm
+
+/-- a state that no visit changes stays below every state it is below, through a whole walk -/
+theorem foldl_above_fixed {f : List Bool → Nat → List Bool} (hf : Deflating f) {q : List Bool}
+    (hq : ∀ k, f q k = q) : ∀ (l : List Nat) (a : List Bool), FLe q a → FLe q (l.foldl f a)
+  | [], _, h => h
+  | k :: l, a, h => by
+    have : FLe q (f a k) := by
+      have := hf.mono q a k h
+      rwa [hq k] at this
+    exact foldl_above_fixed hf hq l (f a k) this
+
+theorem refOkI_mono {nodes : List INode} {a b : List Bool} (h : FLe a b) (r : Nat)
+    (hr : refOkI nodes a r = true) : refOkI nodes b r = true := by
+  unfold refOkI at hr ⊢
+  cases hn : nodes[r]? with
+  | none => simp [hn] at hr
+  | some t =>
+    simp only [hn, Bool.and_eq_true] at hr ⊢
+    exact ⟨h.2 r hr.1, hr.2⟩
+
+theorem condI_mono {nodes : List INode} {a b : List Bool} (h : FLe a b) (n : INode)
+    (hc : condI nodes a n = true) : condI nodes b n = true := by
+  unfold condI at hc ⊢
+  simp only [Bool.and_eq_true, List.all_eq_true] at hc ⊢
+  exact ⟨hc.1, fun r hr => refOkI_mono h r (hc.2 r hr)⟩
+
+theorem stepI_deflating (sel : INode → Bool) (nodes : List INode) : Deflating (stepI sel nodes) := by
+  refine ⟨fun a k => ?_, fun a b k h => ?_⟩
+  · unfold stepI
+    cases nodes[k]? with
+    | none => exact FLe.refl a
+    | some n =>
+      dsimp only
+      split
+      · exact fle_set_false a k
+      · exact FLe.refl a
+  · unfold stepI
+    cases nodes[k]? with
+    | none => exact h
+    | some n =>
+      dsimp only
+      by_cases hb : (sel n && !condI nodes b n) = true
+      · have ha : (sel n && !condI nodes a n) = true := by
+          simp only [Bool.and_eq_true, Bool.not_eq_true'] at hb ⊢
+          refine ⟨hb.1, ?_⟩
+          cases hca : condI nodes a n with
+          | false => rfl
+          | true => rw [condI_mono h n hca] at hb; exact absurd hb.2 (by simp)
+        rw [if_pos ha, if_pos hb]
+        exact fle_set_set h k
+      · rw [if_neg hb]
+        split
+        · exact (fle_set_false a k).trans h
+        · exact h
+
+theorem aliasStepI_deflating (nodes : List INode) : Deflating (aliasStepI nodes) := stepI_deflating _ nodes
+theorem callStepI_deflating (nodes : List INode) : Deflating (callStepI nodes) := stepI_deflating _ nodes
+
+theorem roundI_le (nodes : List INode) (ord : List Nat) (tf : List Bool) : FLe (roundI nodes ord tf) tf :=
+  (foldl_fle (callStepI_deflating nodes) ord _).trans (foldl_fle (aliasStepI_deflating nodes) ord tf)
+
+theorem loopI_le (nodes : List INode) (ord : List Nat) : ∀ (fuel : Nat) (tf : List Bool),
+    FLe (loopI nodes ord fuel tf) tf
+  | 0, tf => FLe.refl tf
+  | fuel + 1, tf => by
+    unfold loopI
+    dsimp only
+    split
+    · exact roundI_le nodes ord tf
+    · exact (loopI_le nodes ord fuel _).trans (roundI_le nodes ord tf)
+
+/-- with enough fuel the loop stops in a state that one more round leaves unchanged -/
+theorem loopI_fixed (nodes : List INode) (ord : List Nat) : ∀ (fuel : Nat) (tf : List Bool),
+    cntI tf < fuel → roundI nodes ord (loopI nodes ord fuel tf) = loopI nodes ord fuel tf
+  | 0, _, h => by omega
+  | fuel + 1, tf, h => by
+    unfold loopI
+    dsimp only
+    split
+    · rename_i heq
+      have e : roundI nodes ord tf = tf := eq_of_fle_of_cntI_eq (roundI_le nodes ord tf) (by simpa using heq)
+      rw [e, e]
+    · rename_i hne
+      have hle := cntI_le_of_fle (roundI_le nodes ord tf)
+      have : cntI (roundI nodes ord tf) ≠ cntI tf := by simpa using hne
+      exact loopI_fixed nodes ord fuel _ (by omega)
+
+/-- no visit of either walk changes the state -/
+def StableI (nodes : List INode) (q : List Bool) : Prop :=
+  ∀ i, aliasStepI nodes q i = q ∧ callStepI nodes q i = q
+
+theorem stepI_out_of_range (sel : INode → Bool) (nodes : List INode) (tf : List Bool) (i : Nat)
+    (hi : nodes.length ≤ i) : stepI sel nodes tf i = tf := by
+  unfold stepI
+  rw [List.getElem?_eq_none hi]
+
+/-- a state that a round over every node leaves unchanged is stable -/
+theorem stable_of_round_fixed {nodes : List INode} {ord : List Nat} {r : List Bool}
+    (hord : ∀ i, i < nodes.length → i ∈ ord) (h : roundI nodes ord r = r) : StableI nodes r := by
+  have h1 := foldl_fle (aliasStepI_deflating nodes) ord r
+  have h2 := foldl_fle (callStepI_deflating nodes) ord (walkI (aliasStepI nodes) ord r)
+  unfold roundI walkI at h
+  unfold walkI at h2
+  rw [h] at h2
+  have e : ord.foldl (aliasStepI nodes) r = r := h1.antisymm h2
+  rw [e] at h
+  intro i
+  by_cases hi : i < nodes.length
+  · exact ⟨foldl_ffixed (aliasStepI_deflating nodes) ord r e i (hord i hi),
+      foldl_ffixed (callStepI_deflating nodes) ord r h i (hord i hi)⟩
+  · exact ⟨stepI_out_of_range _ nodes r i (by omega), stepI_out_of_range _ nodes r i (by omega)⟩
+
+/-- a stable state below `tf` is below everything the loop makes of `tf`, in any visiting order -/
+theorem stable_le_loop {nodes : List INode} {q : List Bool} (hq : StableI nodes q) (ord : List Nat) :
+    ∀ (fuel : Nat) (tf : List Bool), FLe q tf → FLe q (loopI nodes ord fuel tf)
+  | 0, _, h => h
+  | fuel + 1, tf, h => by
+    have hr : FLe q (roundI nodes ord tf) :=
+      foldl_above_fixed (callStepI_deflating nodes) (fun k => (hq k).2) ord _
+        (foldl_above_fixed (aliasStepI_deflating nodes) (fun k => (hq k).1) ord tf h)
+    unfold loopI
+    dsimp only
+    split
+    · exact hr
+    · exact stable_le_loop hq ord fuel _ hr
+
+theorem stableI_iff (nodes : List INode) (tf : List Bool) : stableI nodes tf = true ↔ StableI nodes tf := by
+  unfold stableI StableI
+  simp only [List.all_eq_true, List.mem_range, Bool.and_eq_true, beq_iff_eq]
+  constructor
+  · intro h i
+    by_cases hi : i < nodes.length
+    · exact h i hi
+    · exact ⟨stepI_out_of_range _ nodes tf i (by omega), stepI_out_of_range _ nodes tf i (by omega)⟩
+  · intro h i _
+    exact h i
+
 end GIVerif.Order
